@@ -127,6 +127,13 @@ def register (s : RodasState α) (tevent : α) (i : Nat) : RodasState α :=
 def terminate (s : RodasState α) (tevent : α) : RodasState α :=
   { s with tnext := if E.dense && E.O.le tevent s.tnext then tevent else s.tnext, stop := true }
 
+/-- `abs(tevent - told) < event_duration and (told == t0 or told == te[nevent])`: an event this close to the start of the run
+or to the event just located is that same event -/
+def tooClose (s : RodasState α) (tevent : α) : Bool :=
+  E.O.lt (E.O.abs (E.O.sub tevent s.told)) E.opt.eventDuration &&
+    ((E.O.le s.told E.t0 && E.O.le E.t0 s.told) ||
+      (match s.te.head? with | some te => E.O.le s.told te && E.O.le te s.told | none => false))
+
 /-- the `for i in ff` loop of the event block; `dt` is the step just taken -/
 def eventLoop (dt : α) (valueold valueNew : List α) : List Nat → RodasState α → RodasState α
   | [], s => s
@@ -134,7 +141,7 @@ def eventLoop (dt : α) (valueold valueNew : List α) : List Nat → RodasState 
     if !E.detect valueold valueNew i then eventLoop dt valueold valueNew rest s
     else
       let r := E.locate dt s (valueold.getD i E.O.zero) (valueNew.getD i E.O.zero) i
-      if E.O.lt (E.O.abs (E.O.sub r.1 s.told)) E.opt.eventDuration then E.abandon s r.2
+      if E.tooClose s r.1 then E.abandon s r.2
       else if E.isTerminal i then E.terminate (register s r.1 i) r.1
       else eventLoop dt valueold valueNew rest (register s r.1 i)
 
